@@ -34,8 +34,16 @@ def f64_bits(x):
     return struct.unpack('>Q', struct.pack('>d', x))[0]
 
 def _float_bytes(bits):
+    if bits == 'NaN': bits = 0x7ff8000000000000   # a NaN read back from an observation line
     d = struct.unpack('>d', struct.pack('>Q', bits))[0]
-    if d != d:  # NaN: keep the 8-byte form (generators avoid NaN subtleties)
+    if d != d:
+        # NaN: ciborium picks the shortest width whose widening reproduces the bits; widening
+        # always sets the quiet bit and shifts the payload (half / cvtss2sd on this platform)
+        sign = bits >> 63; mant = bits & ((1 << 52) - 1)
+        if (mant >> 51) & 1 and mant & ((1 << 42) - 1) == 0:
+            return b'\xf9' + ((sign << 15) | 0x7c00 | (mant >> 42)).to_bytes(2, 'big')
+        if (mant >> 51) & 1 and mant & ((1 << 29) - 1) == 0:
+            return b'\xfa' + ((sign << 31) | 0x7f800000 | (mant >> 29)).to_bytes(4, 'big')
         return b'\xfb' + bits.to_bytes(8, 'big')
     try:
         h = struct.pack('>e', d)
